@@ -91,6 +91,23 @@ Theorem C04_resigned_digest_current : forall (sha256 : bytes -> bytes) (sign : b
 Proof. exact resigned_digest_current. Qed.
 Print Assumptions C04_resigned_digest_current.
 
+(* Validation against a CHANNEL (public key pk, claim hash ch), as Output.is_signed_by does since /repo fb0a075: a re-signed
+   object validates against its signer, and a channel with any other claim hash is refused whatever key it carries --
+   the signer's own key included ("stops validating if ... the channel ... is changed"). *)
+Theorem C04_resigned_validates_channel : forall (sha256 : bytes -> bytes) (pub : bytes -> bytes)
+  (sign : bytes -> bytes -> bytes) (verify : bytes -> bytes -> bytes -> bool) (fo addr : bytes),
+  (forall sk d, verify (pub sk) d (sign sk d) = true) ->
+  forall o0 before sk ch after,
+  forallb (keeps (o_msg (orun sha256 sign fo o0 before))) after = true ->
+  obj_valid_channel sha256 verify fo addr (pub sk) ch (orun sha256 sign fo o0 (before ++ OSign sk ch :: after)) = true.
+Proof. exact resigned_validates_channel. Qed.
+Print Assumptions C04_resigned_validates_channel.
+
+Theorem C04_other_channel_refused : forall (sha256 : bytes -> bytes) (verify : bytes -> bytes -> bytes -> bool)
+  (fo addr : bytes) o pk ch, ch <> o_ch o -> obj_valid_channel sha256 verify fo addr pk ch o = false.
+Proof. exact other_channel_refused. Qed.
+Print Assumptions C04_other_channel_refused.
+
 (* clear_signature: until somebody signs again the object validates against no key at all. *)
 Theorem C04_cleared_never_validates : forall (sha256 : bytes -> bytes) (sign : bytes -> bytes -> bytes)
   (verify : bytes -> bytes -> bytes -> bool) (fo addr : bytes) o0 before after pk,
